@@ -3,10 +3,12 @@ from __future__ import annotations
 
 from mc.props import _dfprog as P  # first: installs the pyarrow stand-in through mc.dfh
 
+import zlib
+
 import numpy as np
 import pandas as pd
 
-import dask
+import dask  # noqa: F401
 from mc import dfh
 from mc.run import Hang
 
@@ -83,14 +85,13 @@ def cases_of(shard, tier, counters=None):
     pick = lambda i: i % n == part  # noqa: E731
     for ki, kind in enumerate(sorted({c[0] for c in CONFIGS})):
         root = dfh.with_index(pdf0, kind)
-        j = 0
         base = P.opt_steps_for if fam == "X2" else None
         for prog, xs in P.enumerate_programs(root, levels, first_filter=pick, counters=counters if ki == 0 else None, steps=steps):
             if len(prog) != len(levels):
                 continue
             if fam == "X2" and all(step in base(xs[i]) for i, step in enumerate(prog)):
                 continue  # no extended step: already in O2
-            j += 1
+            j = zlib.crc32(repr(prog).encode())  # which configuration(s) a program meets is a fixed function of the program
             for ci, c in enumerate(CONFIGS):
                 if c[0] == kind and (j + ci) % len(CONFIGS) < ncfg:
                     yield (fam, fname, kind, c[1], c[2], prog), xs
@@ -120,6 +121,8 @@ def attempt(fn):
 
 def same(got, want, mode):
     ordered, check_index = mode
+    if isinstance(want, np.ndarray) and want.ndim == 1 and isinstance(got, pd.Series):
+        want = pd.Series(want, name=got.name)  # documented: Series.unique() is a Series in dask, an ndarray in pandas
     if isinstance(want, (pd.DataFrame, pd.Series)) and not check_index:
         if not isinstance(got, type(want)):
             return f"type {type(got).__name__} != {type(want).__name__}"
@@ -172,6 +175,8 @@ def evaluate(case, pxs):
             problems.append(("optimized", f"raises:{type(res).__name__}", repr(res)[:300]))
     elif note != "baseline_raises":
         why = same(res, reference, mode)
+        if why and note == "baseline_differs" and same(res, want, mode) is None:
+            why, reference = None, want  # the optimized plan avoids a defect of the unoptimized one and agrees with pandas
         if why:
             problems.append(("optimized", "wrong:" + P.diff_class(res, reference, mode[0]), why))
     # ---- re-optimizing the optimized expression
